@@ -224,7 +224,7 @@ def run_unit(unit: Unit, timeout_ms=None, repo_root=None) -> UnitResult:
         st = "discharged"
         if obs[0].kind == "canary":
             # a canary is fine as soon as one path shows it is NOT provable
-            st = "discharged" if any(o.status == "discharged" for o in obs) else ("failed" if all(o.status == "failed" for o in obs) else "unknown")
+            st = "failed" if all(o.status == "failed" for o in obs) else "discharged"  # unknown = not provable within budget
         elif obs[0].kind == "cover":
             # vacuity guard: only a *refuted* reachability (unsat) is an error; unknown is recorded
             st = "failed" if any(o.status == "failed" for o in obs) else ("discharged" if any(o.status == "discharged" for o in obs) else "unknown-cover")
